@@ -389,23 +389,19 @@ func (g *GoBackNConn) sendPacket(ctx context.Context, msg Message,
 		return fmt.Errorf("serialize error: %s", err)
 	}
 
-	// A resend invalidates the round-trip sample of the packet, and the
-	// timeout manager has to know that before the copy is on the wire: the
-	// send function may take its time to return, and the ACK that the copy
-	// provokes would otherwise be measured against the time the packet was
-	// first sent.
-	if isResend {
-		g.timeoutManager.Sent(msg, true)
-	}
+	// Notify the timeout manager that a message is being sent. It has to
+	// know before the packet is on the wire: the send function may take its
+	// time to return, and the ACK can be processed meanwhile. For a resend
+	// (which invalidates the round-trip sample of the packet) the ACK that
+	// the copy provokes would otherwise be measured against the time the
+	// packet was first sent. For a first transmission the send time would
+	// be recorded after its ACK and stay behind, to be paired with the ACK
+	// of the next packet that carries the same sequence number.
+	g.timeoutManager.Sent(msg, isResend)
 
 	err = g.cfg.sendToStream(ctx, b)
 	if err != nil {
 		return fmt.Errorf("error calling sendToStream: %s", err)
-	}
-
-	// Notify the timeout manager that a message has been sent.
-	if !isResend {
-		g.timeoutManager.Sent(msg, false)
 	}
 
 	return nil
